@@ -52,6 +52,10 @@ CHECKS = {
    text="Conformance search against an independent codec (harness/wire: SP stream header and framing, IPC prefix, and an RFC 6455 client/server written without gorilla): for constructors of all 12 protocol numbers on tcp/ipc/tls+tcp, in both roles, mangos' first 8 bytes must equal the header of its own protocol; every single-byte deviation, swapped number, foreign protocol or truncated header from the peer must lead to no Attached event and a closed connection while the correct header attaches; generated messages (raw header 0-32 bytes, boundary-biased bodies to 70000 bytes) must appear on the wire as len64be(h+b)||h||b (IPC: 0x01 first) and frames written by the codec must be returned by RecvMsg unchanged; on ws/wss the dialer must offer exactly '<peer>.sp.nanomsg.org', the listener must accept iff its own name is offered, and each message must be one binary frame. Thorough adds a native fuzz target comparing accept/deliver decisions with the codec on arbitrary peer byte strings.",
    note="The constructor is drawn, not enumerated, per transport x role sub-test. Known finding: ws/wss dialers fragment messages above 4096 bytes. Hostile IPC prefix bytes and silent peers belong to C16.",
    technique="property-based testing (rapid) with a differential oracle: an independent implementation of the SP stream/WebSocket mappings as the peer; native go fuzzing in the thorough tier"),
+ "C10": dict(
+   text="Generated close scenarios: constructor (all 24) x transport (inproc, tcp, ipc, ws, tls+tcp, wss) x role x 0-2 contexts x activities in progress at Close (Recv blocked on the socket and on contexts, Sends blocked against a back-pressuring scripted peer or no peer with a write queue of 1, an asynchronous dialer redialling an absent listener, a raw peer stuck before the handshake on the listener and on the dialer side, the peer closing concurrently, Device forwarders running), optionally a context closed first. Oracle: the calls verified blocked return within 3 s with ErrClosed (or a queued message), Close returns within 3 s, every later call (Send, Recv, Dial, Listen, OpenContext, Close, option calls, context calls) returns within 3 s with a closed/unsupported error, the silent peer's connection is closed, and after all sockets are closed the goroutine census shows no library frame, the pipe-id allocator and the socket's pipe list (verif hook) are back to the baseline and the address can be bound again. A second property closes one context/dialer/listener/pipe and requires siblings to keep working.",
+   note="Schedules are sampled: Close is issued ~40 ms after the activities started, the exact interleaving is not controlled. Timers are observed only through their effects. Known finding: the dialer-side silent-server handshake leak (excluded from generation while listed).",
+   technique="property-based testing (rapid) of generated concurrent close scenarios with watchdog, goroutine-census and allocator oracles; scripted virtual transport and raw TCP/unix peers for faults"),
 }
 
 ALL = ["C%02d" % i for i in range(1, 21)]
